@@ -45,6 +45,11 @@ MAP = [
  ("GIMP palette import drops every colour", "C16", "palette exported to GPL with an empty description imports as 0 colours"),
  ("iCE Draw loader throws the SAUCE record away", "C11", "any .idf saved with SAUCE: Buffer::get_sauce() is None after loading"),
  ("XBin compression loses the font page", "C06", "row [(' ',1,4,page0),(' ',1,4,page1),..]: compressed output decodes the second cell with font page 0"),
+ ("XBin and ADF pictures shorter than 25 rows", "C05", "80x1 ADF / 28x24 XBin document loads with height 25"),
+ ("Tundra writer gives characters 1..6", "C05", "Tundra: cell with char 1..=6 takes the previous cell's colours; first cells lose colours when palette entry 0 is not black"),
+ ("iCE Draw loader lets the SAUCE width clip", "C05", "IDF width 25 with SAUCE: last column dropped (regression guard for the IDF SAUCE fix)"),
+ ("Tundra loader starts with foreground index 7", "C05", "Tundra: first cell fg black / bg colour loads with the colour that becomes palette entry 7"),
+ ("compressed IDF output escapes a lone", "C05", "IDF compressed: cell (char 1, fg 0, bg 0) followed by other cells shifts the rest of the row"),
 ]
 
 def main():
